@@ -60,6 +60,11 @@ class Closure:
         self.node, self.env = node, env
 
 
+def _child(env):
+    """copy of an environment that keeps its laziness"""
+    return env.child() if hasattr(env, "child") else dict(env)
+
+
 def vname(res):
     return short(res, 2)
 
@@ -118,7 +123,7 @@ class Interp:
             return all(self.match_pat(s, a, env) for s, a in zip(p["subs"], v))
         if k == "Or":
             for a in p["alts"]:
-                e2 = dict(env)
+                e2 = _child(env)
                 if self.match_pat(a, v, e2):
                     env.update(e2)
                     return True
@@ -226,7 +231,7 @@ class Interp:
                 raise Undecided("`?` operator")
             v = self.ev(n["scrut"], env)
             for a in n["arms"]:
-                e2 = dict(env)
+                e2 = _child(env)
                 if self.match_pat(a["pat"], v, e2):
                     if a.get("guard") is not None and not self.cond(a["guard"], e2):
                         continue
@@ -283,7 +288,7 @@ class Interp:
     def apply(self, f, args):
         if not isinstance(f, Closure):
             raise Undecided("call of a non-closure value %r" % (f,))
-        env = dict(f.env)
+        env = _child(f.env)
         params = f.node.get("params", [])
         if len(params) != len(args):
             raise Undecided("closure arity")
@@ -304,6 +309,8 @@ class Interp:
         recv = self.ev(n["recv"], env)
         if m in ("clone", "as_ref", "as_mut", "as_deref", "to_owned", "borrow", "deref", "by_ref", "copied", "cloned", "into") and not n["args"]:
             return recv
+        if m in ("to_string", "as_str", "to_lowercase_ascii") and not n["args"] and isinstance(recv, (str, int)) and not isinstance(recv, bool):
+            return str(recv)
         if m in ("is_some", "is_none") and isinstance(recv, V) and not n["args"]:
             return (recv.name == "Option::Some") == (m == "is_some")
         if m in ("is_ok", "is_err") and isinstance(recv, V) and not n["args"]:
@@ -353,6 +360,10 @@ class Interp:
                 return r[0]
         if n.get("ctor"):
             return V(vname(n["callee"]), [self.ev(a, env) for a in n["args"]])
+        if len(n["args"]) == 1 and (str(n.get("callee", "")).endswith("From<&str>>::from") or short(n.get("callee", ""), 2) in ("String::from", "From::from", "ToOwned::to_owned", "ToString::to_string")):
+            a = self.ev(n["args"][0], env)
+            if isinstance(a, str):
+                return a
         f = n["f"]
         if f["k"] == "Path" and f.get("rk") == "Local":
             return self.apply(self.ev(f, env), [self.ev(a, env) for a in n["args"]])
@@ -371,3 +382,58 @@ class Interp:
             return self.ev(body, env)
         except _Return as r:
             return r.v
+
+
+class LazyEnv(dict):
+    """environment for evaluating an expression in the middle of a function: a local named in `by_name` takes the given
+    value, another single-assignment local is evaluated from its definition on demand (`locs` = hirq.Locals of the
+    function), anything else is Opaque(name)"""
+
+    def __init__(self, it, locs, by_name=None, opaque_rest=True):
+        dict.__init__(self)
+        self.it, self.locs, self.by_name, self.opaque_rest = it, locs, dict(by_name or {}), opaque_rest
+
+    def child(self):
+        c = LazyEnv(self.it, self.locs, self.by_name, self.opaque_rest)
+        dict.update(c, dict.items(self))
+        return c
+
+    @staticmethod
+    def _name(key):
+        parts = key.split(":")
+        return parts[1] if len(parts) > 1 else key
+
+    def __contains__(self, key):
+        if dict.__contains__(self, key):
+            return True
+        try:
+            self[key]
+            return True
+        except KeyError:
+            return False
+
+    def __missing__(self, key):
+        nm = self._name(key)
+        if nm in self.by_name:
+            v = self.by_name[nm]
+        elif key in self.locs.defs:
+            try:
+                v = self.it.ev(self.locs.defs[key], self)
+            except Undecided:
+                if not self.opaque_rest:
+                    raise KeyError(key)
+                v = Opaque(nm)
+        elif self.opaque_rest:
+            v = Opaque(nm)
+        else:
+            raise KeyError(key)
+        dict.__setitem__(self, key, v)
+        return v
+
+
+def eval_in(hir, node, by_name, call=None, effect=None):
+    """evaluate `node` (an expression inside function body `hir`) with the named locals bound as given"""
+    from hirq import Locals
+    it = Interp(call=call, effect=effect)
+    env = LazyEnv(it, Locals(hir), by_name)
+    return it.run(node, env)
